@@ -44,6 +44,9 @@ CLAIMED = {
  "C10": ("enum", "bounded-exhaustive field grammar of wire messages delivered through the real service handlers and event loop of a running replica, oracle = no panic + protocol state unchanged for messages in which nothing verifies",
          "~45k messages per configuration (proposal, vote, new-view, timeout, block fetch, Kauri contribution; every optional field absent/present, 7 hash forms, 6 views, 14-17 signature variants per scheme, 4 TC views, AggQC maps nil/empty/id 0/unknown id/nil entry/mixed), each first passed through protobuf marshal/unmarshal, delivered from leader / other / unknown / unidentified peers to a fresh and a certificate-advanced replica, 3 schemes x cache on/off x 3 rulesets; thorough repeats every message from every kind of peer.",
          "Messages enter at the gorums service implementation, not at a socket; TLS identity is replaced by connection metadata; panics are located by their innermost repository frame.", "§4 C10"),
+ "C09": ("seqmc", "exhaustive enumeration of message arrival orders at a real vote collector (clique leader and Kauri tree node) against a reference count of distinct valid voters",
+         "Clique: every permutation of {proposal, 1..3 honest votes} plus every subset of <=2 (3 thorough) of 9 hostile votes (duplicate, forged, other-block, two-signer, own-signature-twice, non-member, unknown block, old block, relabelled) delivered to a fresh replica that is next leader, n=4, EdDSA and ECDSA (n=7 thorough); votes before the proposal take the deferred path. Kauri: every sequence up to length 4 (5) of child contributions {full aggregate, partial, other-block, wrong view, no signature, overlapping} with the aggregation timer at every position, root and interior node, n=4 (7). Every emitted QC / contribution is verified by another replica.",
+         "Asynchronous verification is explored separately under the controlled scheduler (schedmc) when built; BLS is not used here.", "§4 C09"),
 }
 PENDING = {}  # id -> reason (properties not claimed)
 
